@@ -2,6 +2,7 @@ import Verif.Properties.C01Skeleton
 import Verif.Properties.C01
 import Verif.Properties.C01Move
 import Verif.Properties.C01RetargetExample
+import Verif.Properties.C01PhasesExample
 #print axioms C01.cert_sound
 #print axioms C01.validated_start_pairs
 #print axioms C01.example_accepts
@@ -15,6 +16,10 @@ import Verif.Properties.C01RetargetExample
 #print axioms C01.pointer_expand_step_preserves
 #print axioms C01.RetargetExample.example_applies
 #print axioms C01.RetargetExample.example_inline_applies
+#print axioms C01.normalizeRef_preserves_meaning
+#print axioms C01.retarget_sequence_preserves_meaning
+#print axioms C01.retarget_run_preserves_meaning
+#print axioms C01.PhasesExample.example_applies
 #print axioms C01.rewriteSchemaToRef_is_setAt
 #print axioms C01.tiny_targetsOK
 #print axioms C01.tiny_stable
